@@ -169,7 +169,7 @@ fn long_list(pattern: u32, n: usize) -> Vec<SEntry> {
 pub fn run(tier: &str) -> i32 {
     let rep = Report::new("C05", tier, "exploration");
     let thorough = rep.thorough();
-    rep.rule("all valid entry lists of length 0..2 over boundary alphabets (delta-id {0*,1,2,127,128,2^32,2^56}, run {0,1,2,127,128,2^32-1}, len {1,127,128,2^32-1}, offset {0,1,contig,contig+-1,2^32,2^62}), all lists of length 3 over a reduced alphabet, parametric long lists (four families incl. a perfectly regular one); sequences 'refused directory, failing sink, then valid directory' on one thread; x compressions x sync/async; non-trivial = list with >=1 entry; distinct = distinct lists");
+    rep.rule("values 128^k-2..128^k+1 (k=1..9) in every column of short lists (every varint length border, explicit offsets are stored +1); all valid entry lists of length 0..2 over boundary alphabets (delta-id {0*,1,2,127,128,2^32,2^56}, run {0,1,2,127,128,2^32-1}, len {1,127,128,2^32-1}, offset {0,1,contig,contig+-1,2^32,2^62}), all lists of length 3 over a reduced alphabet, parametric long lists (four families incl. a perfectly regular one); sequences 'refused directory, failing sink, then valid directory' on one thread; x compressions x sync/async; non-trivial = list with >=1 entry; distinct = distinct lists");
     rep.assume("lists longer than 3 entries are covered only by the three parametric families");
     rep.assume("spec encoder/decoder in harness/src/spec/dir.rs is the trusted reference");
 
@@ -179,6 +179,28 @@ pub fn run(tier: &str) -> i32 {
     for f in firsts.iter() {
         lists.push(vec![*f]);
     }
+    // every varint length border in every column: values 128^k - 2 .. 128^k + 1 (k = 1..9, as far as the field is wide)
+    // as id, run length, length and explicitly stored offset (offset v is stored as v + 1) of a single entry, and as
+    // the second entry's delta / non-contiguous offset behind a fixed first entry
+    for k in 1..=9u32 {
+        let b = 1u128 << (7 * k);
+        for d in [-2i128, -1, 0, 1] {
+            let v = (b as i128 + d) as u128;
+            if v <= u128::from(u64::MAX >> 1) {
+                let v = v as u64;
+                lists.push(vec![SEntry::new(v, 0, 1, 1)]);
+                lists.push(vec![SEntry::new(0, v, 1, 1)]);
+                lists.push(vec![SEntry::new(5, 3, 2, 1), SEntry::new(5 + v, v.max(6), 1, 1)]);
+                lists.push(vec![SEntry::new(5, 3, 2, 0), SEntry::new(5 + v.max(1), 1, 7, 1), SEntry::new(6 + v.max(1), v, 1, 0)]);
+            }
+            if v <= u128::from(u32::MAX) {
+                let v = v as u32;
+                lists.push(vec![SEntry::new(1, 1, v, 1)]);
+                lists.push(vec![SEntry::new(1, 1, 1, v)]);
+            }
+        }
+    }
+    lists.retain(|l| dir::is_valid(l));
     rep.count("lists_len0_1", lists.len() as u64);
     let small = lists.clone();
     // compressions on length <= 1 (all four), None on everything
